@@ -785,6 +785,7 @@ class X12ContextReader(object):
         """
         cur_tree = None
         cur_data_node = None
+        cur_map = None
         for seg in self.src:
             #find node
             orig_node = self.x12_map_node
@@ -831,6 +832,9 @@ class X12ContextReader(object):
                         self._reset_counter_to_isa_counts()
                     #self._reset_gs_counts(cur_map)
                     self._reset_counter_to_gs_counts()
+                    if cur_map is None:
+                        raise pyx12.errors.EngineError("Map not found.  icvn=%s, fic=%s, vriic=%s" %
+                                                       (icvn, fic, vriic))
                     tpath = '/ISA_LOOP/GS_LOOP/GS'
                     self.x12_map_node = cur_map.getnodebypath(tpath)
                     #self.walker.forceWalkCounterToLoopStart('/ISA_LOOP/GS_LOOP', '/ISA_LOOP/GS_LOOP/GS')
@@ -849,7 +853,7 @@ class X12ContextReader(object):
                                 self.src.check_837_lx = True
                             else:
                                 self.src.check_837_lx = False
-                            self._apply_loop_count(self.x12_map_node, cur_map)
+                            #self._apply_loop_count(self.x12_map_node, cur_map)
                             tpath = '/ISA_LOOP/GS_LOOP/ST_LOOP/HEADER/BHT'
                             self.x12_map_node = cur_map.getnodebypath(tpath)
 
@@ -901,6 +905,9 @@ class X12ContextReader(object):
                 if cur_data_node.id != 'ISA' and cur_data_node is not None:
                     assert cur_data_node.parent is not None, 'Node "%s" has no parent' % (cur_data_node.id)
                 yield cur_data_node
+        if cur_tree is not None:
+            # the input ended inside the requested loop
+            yield cur_tree
 
     def register_error_callback(self, callback, err_type):
         """
